@@ -131,3 +131,31 @@ def pick(sp, params, name, n):
     if name in params and params[name] is not None:
         return params[name]
     return sp.choice(name, n)
+
+
+def sym_max(*args, **kw):
+    """proxy-aware builtin max (state merging: no fork on symbolic arguments)"""
+    xs = list(args[0]) if len(args) == 1 else list(args)
+    if kw or not any_sym(xs):
+        return max(*args, **kw)
+    return vmax(xs)
+
+
+def sym_min(*args, **kw):
+    xs = list(args[0]) if len(args) == 1 else list(args)
+    if kw or not any_sym(xs):
+        return min(*args, **kw)
+    return vmin(xs)
+
+
+_merged = {}
+
+
+def tad_merged():
+    """tad.py loaded with proxy-aware max/min as module globals (the three-way
+    max(...) inside the reward loop then merges instead of forking)"""
+    if "tad" not in _merged:
+        std = repo.std()
+        _merged["tad"] = repo.load("tad", overrides={"max": sym_max, "min": sym_min},
+                                   imports={"reverse_dfs": std.reverse_dfs}, alias="tad_merged")
+    return _merged["tad"]
